@@ -324,6 +324,10 @@ class KcWorld(World):
     def cleanup(self):
         self.hard_close()
         shutil.rmtree(self.dir, ignore_errors=True)
+        try:
+            os.rmdir(os.path.dirname(self.dir))     # the per-process parent, once empty
+        except OSError:
+            pass
 
     # ---- reference semantics of one op on the model ------------------------------------------
     def resolve(self, op):
